@@ -178,9 +178,17 @@ func Scalar(t *rapid.T, fd protoreflect.FieldDescriptor, label string, o Opts) p
 	case protoreflect.Uint64Kind, protoreflect.Fixed64Kind:
 		return protoreflect.ValueOfUint64(uint64Val(t, label, o.JSONSafe && model.Int64Number(fd)))
 	case protoreflect.FloatKind:
-		return protoreflect.ValueOfFloat32(float32Val(t, label, o.NoNaN || o.JSONSafe))
+		f := float32Val(t, label, o.NoNaN || o.JSONSafe)
+		if o.JSONSafe && f == 0 {
+			f = 0 // JavaScript's JSON drops the sign of negative zero
+		}
+		return protoreflect.ValueOfFloat32(f)
 	case protoreflect.DoubleKind:
-		return protoreflect.ValueOfFloat64(float64Val(t, label, o.NoNaN || o.JSONSafe))
+		f := float64Val(t, label, o.NoNaN || o.JSONSafe)
+		if o.JSONSafe && f == 0 {
+			f = 0
+		}
+		return protoreflect.ValueOfFloat64(f)
 	case protoreflect.EnumKind:
 		vs := fd.Enum().Values()
 		if o.UnknownEnums && !model.EnumNumber(fd) && rapid.IntRange(0, 9).Draw(t, label+"#unk") == 0 {
